@@ -16,6 +16,7 @@ import GunYu.Model.FrontierSys
 import GunYu.Proofs.Frontier
 import GunYu.Proofs.FrontierSys
 import GunYu.Proofs.FrontierRestart
+import GunYu.Proofs.FrontierTraffic
 
 namespace GunYu.Props.C14
 open GunYu GunYu.Frontier
@@ -182,6 +183,62 @@ theorem resume_monotone_of_consistent (W : World) (ns : NS) (hc : Consistent W n
     Ascending (restarts W.ver W.ids ns ks) :=
   restarts_ascending ks hc hp
 
+/-! ### executions WITH traffic (Model/FrontierTraffic.lean: the recovery requests of a start are
+    applied before the first unit of that process commits, as in the code)
+
+    `TInv` = the invariant of `SysInv` plus: index members are scored with their key's number; a root
+    checkpoint exists; an idle system has nothing queued; while a process runs, either a purge
+    (deletes, then the snapshot) is outstanding and a start would still return the root, or every
+    queued save is visible and not below the snapshot / the save before it, every queued delete
+    names numbers the snapshot in force covers, and the coordinator's frontier is not below any of
+    them. -/
+
+/-- the invariant holds in a fresh namespace (only the root checkpoint exists) -/
+theorem traffic_init_inv (W : World) (db : Nat) :
+    TInv W { ns := { root := some (W.rid, W.e 0, db) } } :=
+  ⟨init_inv W db, by simp, ⟨_, rfl⟩, fun _ => ⟨rfl, rfl⟩, fun r hr => by simp at hr⟩
+
+/-- every single step preserves it -/
+theorem traffic_each_step_preserves (W : World) (hm : ∀ i j, i ≤ j → W.e i ≤ W.e j)
+    (hvis : matchRun W.rid W.ids = true) (s : TSys) (h : TInv W s) (st : Step) :
+    TInv W (tstep W s st) := (tstep_tinv hm hvis h st).1
+
+/-- Along EVERY execution — units committing on any lanes in any order, completion reports in any
+    order, flush ticks at any time under any flush policy, every coordinator / recovery request
+    applied on its own, crashes after any request, restarts — the point a fresh start would resume
+    from never moves backwards: for any two moments (`steps`, then `more`) the later one resumes at
+    a sequence number and a source offset not smaller; and at both it names a committed prefix
+    (`resume_is_committed_prefix`, restated here for the split-queue system).
+    `hm`: end offsets grow with the unit number; `hvis`: the source still reports the run id the
+    units are recorded under. -/
+theorem resume_monotone_traffic (W : World) (hm : ∀ i j, i ≤ j → W.e i ≤ W.e j)
+    (hvis : matchRun W.rid W.ids = true) (s₀ : TSys) (h₀ : TInv W s₀) (steps more : List Step) :
+    startSeqOf W.ver (trunSteps W s₀ steps).ns W.ids
+        ≤ startSeqOf W.ver (trunSteps W s₀ (steps ++ more)).ns W.ids ∧
+    startOffOf W.ver (trunSteps W s₀ steps).ns W.ids
+        ≤ startOffOf W.ver (trunSteps W s₀ (steps ++ more)).ns W.ids ∧
+    (∀ j, 0 < j → j ≤ startSeqOf W.ver (trunSteps W s₀ (steps ++ more)).ns W.ids →
+        j ∈ (trunSteps W s₀ (steps ++ more)).committed) := by
+  obtain ⟨h1, _⟩ := trunSteps_tinv hm hvis steps h₀
+  obtain ⟨h2, hle⟩ := trunSteps_tinv hm hvis more h1
+  rw [← trunSteps_append] at h2 hle
+  obtain ⟨r1, hr1⟩ := h1.root
+  obtain ⟨r2, hr2⟩ := h2.root
+  refine ⟨hle, ?_, ?_⟩
+  · have e1 := startOff_eq (ns := (trunSteps W s₀ steps).ns) (consistent_of_sysInv hm h1.hi) hr1
+    have e2 := startOff_eq (ns := (trunSteps W s₀ (steps ++ more)).ns) (consistent_of_sysInv hm h2.hi) hr2
+    rw [e1, e2]
+    exact hm _ _ hle
+  · intro j hj0 hj
+    cases hst : startFrontier W.ver (trunSteps W s₀ (steps ++ more)).ns W.ids with
+    | mk st reqs =>
+      cases st with
+      | empty =>
+        simp only [startSeqOf, hst] at hj; omega
+      | point db rid off seq =>
+        simp only [startSeqOf, hst] at hj
+        exact (start_sound h2.hi db rid off seq reqs hst).1.2.2 j hj0 hj
+
 /-! ### non-vacuity -/
 
 def exW : World := { e := fun i => 1000 + 10 * i, rid := [114], ids := [[114], [112]], ver := [49] }
@@ -225,6 +282,24 @@ def exGap : Sys := runSteps exW { ns := { root := some ([114], 1000, 0) } } [.st
 example : exGap.ns.journal.map (·.kseq) = [2] := by decide
 example : startFrontier exW.ver exGap.ns exW.ids
     = (.point 0 [114] 1000 0, [.delRec 2, .zrem [2], .delFrontier]) := by decide
+
+/-- executions with traffic in the split-queue system: the same run as `exSteps`, then a restart
+    (whose three recovery requests are applied before anything else), units 5 and 4, a report, a crash
+    in the middle: the resume number at successive moments is 0, 0 (unit 2 alone: a gap), 3, 3, 3, 5 —
+    never smaller than before -/
+def exT0 : TSys := { ns := { root := some ([114], 1000, 0) } }
+def exTSteps : List Step := exSteps ++ [.start, .commit 4 1, .apply, .apply, .apply, .commit 5 2, .commit 4 3, .report 4 3 11, .crash]
+example : TInv exW exT0 := traffic_init_inv exW 0
+example : [2, 4, 9, 10, 13, 18].map (fun k => startSeqOf exW.ver (trunSteps exW exT0 (exTSteps.take k)).ns exW.ids)
+    = [0, 3, 3, 3, 3, 5] := by decide
+/-- the unit committed while the recovery requests of the restart were outstanding was not accepted
+    (step 11, `.commit 4 1`): the send loop has not started yet -/
+example : (trunSteps exW exT0 (exTSteps.take 11)).committed = [3, 1, 2] := by decide
+example : (trunSteps exW exT0 exTSteps).committed = [4, 5, 3, 1, 2] := by decide
+example : startOffOf exW.ver (trunSteps exW exT0 (exTSteps.take 4)).ns exW.ids
+      ≤ startOffOf exW.ver (trunSteps exW exT0 (exTSteps.take 4 ++ exTSteps.drop 4)).ns exW.ids :=
+  (resume_monotone_traffic exW (fun i j h => by simp only [exW]; omega) (by decide) exT0
+    (traffic_init_inv exW 0) (exTSteps.take 4) (exTSteps.drop 4)).2.1
 
 /-- sync mode: units committed one after the other with restarts in between -/
 def exSync : SyncSys := syncRun exW { ns := { root := some ([114], 1000, 0) }, cur := 0 }
